@@ -123,8 +123,10 @@ class require:  # pylint: disable=invalid-name
 
         if contract_checker is None:
             # Wrap the function with a contract checker
-            contract_checker = icontract._checkers.decorate_with_checker(func=func)
-            result = contract_checker
+            (
+                contract_checker,
+                result,
+            ) = icontract._checkers.decorate_with_checker_below_invariants(func=func)
         else:
             # The checker has been found somewhere down the decorator stack. We must return the function as given,
             # lest we strip the decorators which were applied on top of the checker.
@@ -329,8 +331,10 @@ class ensure:  # pylint: disable=invalid-name
 
         if contract_checker is None:
             # Wrap the function with a contract checker
-            contract_checker = icontract._checkers.decorate_with_checker(func=func)
-            result = contract_checker
+            (
+                contract_checker,
+                result,
+            ) = icontract._checkers.decorate_with_checker_below_invariants(func=func)
         else:
             # The checker has been found somewhere down the decorator stack. We must return the function as given,
             # lest we strip the decorators which were applied on top of the checker.
